@@ -360,6 +360,13 @@ func runCtxLua(ctx *core.RunCtx) {
 				fail("L9", "running-in-ended-context:"+tag, "context %d goes on running after %s although it reports status %s: %s", id, tag, st, e)
 				return
 			}
+			// ... and what the protected call reports is what its body did (it never fails by itself): a limit
+			// reached in there is not an error the program gets to see
+			want := map[string]string{"xp": "true", "coc": "true", "cod": "false"}[tag]
+			if len(f) < 5 || f[3] != want { // (in the middle of an argument list the call gives its first result only)
+				fail("L9", "termination-seen-as-error:"+tag, "context %d: the protected call reports something its body did not do (a limit reached inside it was handed to the program as an error?): %s", id, e)
+				return
+			}
 		case "before":
 			kc, _ := num(3)
 			uc, _ := num(4)
